@@ -189,15 +189,20 @@ package rtree
 //@ func assign
 //@   prop C11
 //@   nosafety
-//@   opt havoc=node,entry
+//@   opt havoc=entry
+//@   requires [group] group != nil
 //@   ensures [levels_kept] forall m *node :: m != nil && !fresh(m) ==> m.level == old(m.level) && m.leaf == old(m.leaf)
+//@   ensures [appended_once] len(group.entries) == old(len(group.entries)) + 1
+//@   modifies *group, *e.child
 
 //@ func assignGroup
 //@   prop C11
 //@   nosafety
 //@   opt trustpre=rtree
 //@   opt havoc=node,entry
+//@   requires [two_groups] left != nil && right != nil && left != right && e.child != left && e.child != right
 //@   ensures [levels_kept] forall m *node :: m != nil && !fresh(m) ==> m.level == old(m.level) && m.leaf == old(m.leaf)
+//@   ensures [assigned_to_exactly_one_group] len(left.entries) + len(right.entries) == old(len(left.entries) + len(right.entries)) + 1
 
 //@ func (n *node) pickSeeds
 //@   prop C11
